@@ -27,6 +27,27 @@ def run(fx, rep, tier):
     pC11.rule_history(fx, rep, rid="C17-HISTORY")
     rule_movegen(fx, rep)
     rule_repscan(fx, rep)
+    rule_key(fx, rep)
+
+
+def rule_key(fx, rep):
+    """The history the position command builds identifies earlier positions by their keys, so a recurrence in the replayed game is
+    only visible if make_move maintains the key exactly (C03; seed C17-6b: a castling word toggled again each time a king or rook
+    leaves its home square makes the key depend on the path). The C03 clauses are re-reported here as that premise."""
+    import core
+    import pC03
+    sub = type(rep)(rep.prop, rep.tier)
+    q = core.QUIET
+    core.QUIET = True
+    try:
+        pC03.run(fx, sub, rep.tier)
+    finally:
+        core.QUIET = q
+    for v in sub.violations:
+        rep.violation("C17-KEY", v["key"].replace("C03-", "C17-KEY/", 1), v["msg"] + " (positions of the replayed game are then not recognised when they recur)", v["site"])
+    rep.obligations += sub.obligations
+    rep.discharged += sub.discharged
+    rep.rule("C17-KEY", sub.obligations, 100, not sub.violations, "keys of the replayed positions (shared with C03)")
 
 
 def rule_repscan(fx, rep):
@@ -440,6 +461,16 @@ def rule_match(fx, rep):
         g = deep_strip(ex.expr(t["args"][0], expand_named=False, at=bb))
         good = isinstance(mv, tuple) and mv[0] == "call" and mv[1].endswith("expect_matching") and isinstance(g, tuple) and g[0] == "var"
         local_game = g[2] if good else None
+        # the game may be reached through a `&mut` parameter of a (spliced-in) helper: follow copies / borrows back to the local
+        for _ in range(6):
+            ds = ex.defs().get(local_game, []) if local_game is not None else []
+            if len(ds) == 1 and ds[0][0] == "stmt" and ds[0][3]["k"] == "assign":
+                rv0 = ds[0][3]["rv"]
+                src = rv0.get("pl") if rv0["k"] == "ref" else (rv0.get("op", {}).get("pl") if rv0["k"] == "use" else None)
+                if src is not None and (not src.get("p") or src.get("p") == ["*"]):
+                    local_game = src["l"]
+                    continue
+            break
         # the list searched comes from the same local game
         lst = find_calls(mv, "Game::moves")
         good = good and bool(lst) and deep_strip(ex.expr(emc[0][1]["args"][0], expand_named=False, at=emc[0][0])) is not None
@@ -479,6 +510,8 @@ P = "src/engine/uci/parser.rs"
 MVR = "src/engine/uci/move.rs"
 SQ = "src/chess/square.rs"
 MUTANTS = [
+    {"name": "castling word toggled again for a right that is already gone (seed C17-6b)", "expect": "C17-KEY/PAIR/try_remove_castle_rights",
+     "edits": [("src/chess/game.rs", "        if !castle_rights.can_castle_to_side(castle_rights_side) {\n            return;\n        }\n", "        let _ = castle_rights.can_castle_to_side(castle_rights_side);\n")]},
     {"name": "repetition scan skipped for clocks up to four (seed C17-5b)", "expect": "C17-REPSCAN/early-return",
      "edits": [("src/chess/game.rs", "    pub fn is_repeated_position(&self) -> bool {\n", "    pub fn is_repeated_position(&self) -> bool {\n        if self.halfmove_clock <= 4 {\n            return false;\n        }\n")]},
     {"name": "promotion no longer resets the halfmove clock (seed C17-3)", "expect": "C17-FORWARD",
